@@ -14,6 +14,7 @@
 #pragma once
 
 #include <pistache/typeid.h>
+#include <pistache/verif_hooks.h>
 
 #include <atomic>
 #include <condition_variable>
@@ -348,10 +349,13 @@ namespace Pistache::Async
                 }
                 catch (const InternalRethrow& e)
                 {
+                    PISTACHE_VERIF_YIELD(36, chain_.get());
                     chain_->exc   = e.exc;
                     chain_->state = State::Rejected;
+                    PISTACHE_VERIF_YIELD(37, chain_.get());
                     for (const auto& req : chain_->requests)
                     {
+                        PISTACHE_VERIF_YIELD(38, chain_.get());
                         req->reject(chain_);
                     }
                 }
@@ -433,8 +437,10 @@ namespace Pistache::Async
                 void doReject(const std::shared_ptr<CoreT<T>>& core) override
                 {
                     reject_(core->exc);
+                    PISTACHE_VERIF_YIELD(39, this->chain_.get());
                     for (const auto& req : this->chain_->requests)
                     {
+                        PISTACHE_VERIF_YIELD(40, this->chain_.get());
                         req->reject(this->chain_);
                     }
                 }
@@ -443,9 +449,12 @@ namespace Pistache::Async
                 void finishResolve(Ret&& ret) const
                 {
                     typedef typename std::decay<Ret>::type CleanRet;
+                    PISTACHE_VERIF_YIELD(30, this->chain_.get());
                     this->chain_->template construct<CleanRet>(std::forward<Ret>(ret));
+                    PISTACHE_VERIF_YIELD(31, this->chain_.get());
                     for (const auto& req : this->chain_->requests)
                     {
+                        PISTACHE_VERIF_YIELD(32, this->chain_.get());
                         req->resolve(this->chain_);
                     }
                 }
@@ -478,8 +487,10 @@ namespace Pistache::Async
                 void doReject(const std::shared_ptr<CoreT<void>>& core) override
                 {
                     reject_(core->exc);
+                    PISTACHE_VERIF_YIELD(39, this->chain_.get());
                     for (const auto& req : this->chain_->requests)
                     {
+                        PISTACHE_VERIF_YIELD(40, this->chain_.get());
                         req->reject(this->chain_);
                     }
                 }
@@ -488,9 +499,12 @@ namespace Pistache::Async
                 void finishResolve(Ret&& ret) const
                 {
                     typedef typename std::remove_reference<Ret>::type CleanRet;
+                    PISTACHE_VERIF_YIELD(30, this->chain_.get());
                     this->chain_->template construct<CleanRet>(std::forward<Ret>(ret));
+                    PISTACHE_VERIF_YIELD(31, this->chain_.get());
                     for (const auto& req : this->chain_->requests)
                     {
+                        PISTACHE_VERIF_YIELD(32, this->chain_.get());
                         req->resolve(this->chain_);
                     }
                 }
@@ -609,9 +623,12 @@ namespace Pistache::Async
 
                     void operator()(const PromiseType& val)
                     {
+                        PISTACHE_VERIF_YIELD(33, chainCore.get());
                         chainCore->construct<PromiseType>(val);
+                        PISTACHE_VERIF_YIELD(34, chainCore.get());
                         for (const auto& req : chainCore->requests)
                         {
+                            PISTACHE_VERIF_YIELD(35, chainCore.get());
                             req->resolve(chainCore);
                         }
                     }
@@ -689,9 +706,12 @@ namespace Pistache::Async
 
                     void operator()(const PromiseType& val)
                     {
+                        PISTACHE_VERIF_YIELD(33, chainCore.get());
                         chainCore->construct<PromiseType>(val);
+                        PISTACHE_VERIF_YIELD(34, chainCore.get());
                         for (const auto& req : chainCore->requests)
                         {
+                            PISTACHE_VERIF_YIELD(35, chainCore.get());
                             req->resolve(chainCore);
                         }
                     }
@@ -837,6 +857,7 @@ namespace Pistache::Async
 
             typedef typename std::remove_reference<Arg>::type Type;
 
+            PISTACHE_VERIF_YIELD(10, core_.get());
             if (core_->state != State::Pending)
                 throw Error("Attempt to resolve a fulfilled promise");
 
@@ -849,11 +870,16 @@ namespace Pistache::Async
                 throw Error("Attempt to resolve a void promise with arguments");
             }
 
+            PISTACHE_VERIF_YIELD(11, core_.get());
+            PISTACHE_VERIF_LOCK_SCOPE(core_->mtx);
             std::unique_lock<std::mutex> guard(core_->mtx);
+            PISTACHE_VERIF_YIELD(12, core_.get());
             core_->construct<Type>(std::forward<Arg>(arg));
+            PISTACHE_VERIF_YIELD(13, core_.get());
 
             for (const auto& req : core_->requests)
             {
+                PISTACHE_VERIF_YIELD(14, core_.get());
                 req->resolve(core_);
             }
 
@@ -871,10 +897,15 @@ namespace Pistache::Async
             if (!core_->isVoid())
                 throw Error("Attempt ro resolve a non-void promise with no argument");
 
+            PISTACHE_VERIF_YIELD(11, core_.get());
+            PISTACHE_VERIF_LOCK_SCOPE(core_->mtx);
             std::unique_lock<std::mutex> guard(core_->mtx);
+            PISTACHE_VERIF_YIELD(12, core_.get());
             core_->state = State::Fulfilled;
+            PISTACHE_VERIF_YIELD(13, core_.get());
             for (const auto& req : core_->requests)
             {
+                PISTACHE_VERIF_YIELD(14, core_.get());
                 req->resolve(core_);
             }
 
@@ -908,14 +939,20 @@ namespace Pistache::Async
             if (!core_)
                 return false;
 
+            PISTACHE_VERIF_YIELD(15, core_.get());
             if (core_->state != State::Pending)
                 throw Error("Attempt to reject a fulfilled promise");
 
+            PISTACHE_VERIF_YIELD(16, core_.get());
+            PISTACHE_VERIF_LOCK_SCOPE(core_->mtx);
             std::unique_lock<std::mutex> guard(core_->mtx);
+            PISTACHE_VERIF_YIELD(17, core_.get());
             core_->exc   = std::make_exception_ptr(exc);
             core_->state = State::Rejected;
+            PISTACHE_VERIF_YIELD(18, core_.get());
             for (const auto& req : core_->requests)
             {
+                PISTACHE_VERIF_YIELD(19, core_.get());
                 req->reject(core_);
             }
 
@@ -1118,7 +1155,10 @@ namespace Pistache::Async
                 Continuation;
             std::shared_ptr<Private::Request> req = std::make_shared<Continuation>(promise.core_, resolveFunc, rejectFunc);
 
+            PISTACHE_VERIF_YIELD(20, core_.get());
+            PISTACHE_VERIF_LOCK_SCOPE(core_->mtx);
             std::unique_lock<std::mutex> guard(core_->mtx);
+            PISTACHE_VERIF_YIELD(21, core_.get());
             if (isFulfilled())
             {
                 req->resolve(core_);
@@ -1128,7 +1168,9 @@ namespace Pistache::Async
                 req->reject(core_);
             }
 
+            PISTACHE_VERIF_YIELD(22, core_.get());
             core_->requests.push_back(req);
+            PISTACHE_VERIF_YIELD(23, core_.get());
 
             return promise;
         }
